@@ -141,7 +141,8 @@ Proof.
   - destruct (disc_step t x q U C) as (t' & Hs & Hc & Ho). exists t'. cbn [C19.run_strict]. rewrite Hs.
     split; [reflexivity|]. split; [eapply Ph_bk; eauto; reflexivity|]. rewrite Hc.
     split; [apply has_conn_del|]. split; [auto|]. split; [apply has_conn_del_sub|apply del_conn_length].
-  - exists t. cbn. repeat split; auto.
+  - exists t. cbn. split; [reflexivity|]. split; [assumption|]. split; [assumption|].
+    split; [reflexivity|]. split; auto.
 Qed.
 
 (* stage: make room for one more connection at x *)
@@ -162,7 +163,7 @@ Proof.
   pose proof (pi_cap _ _ _ _ _ (proj1 (ph_inv _ HP) x)) as Hcap.
   destruct Hlim as (_ & _ & Hm).
   destruct (p_conns P (peers P t x)) as [|c cs] eqn:E.
-  - exists t. cbn. rewrite E. cbn. repeat split; auto.
+  - exists t. cbn. rewrite E. cbn. split; [reflexivity|]. split; [assumption|]. split; [lia|]. split; auto.
   - destruct (Nat.leb (g_maxconn P g) (length (c :: cs))) eqn:L.
     + assert (C : has_conn (p_conns P (peers P t x)) (c_peer c) = true) by (rewrite E; apply has_conn_hd).
       destruct (disc_step t x (c_peer c) U C) as (t' & Hs & Hc & Ho). exists t'.
@@ -170,7 +171,8 @@ Proof.
       rewrite Hc. split; [|split; [auto|]].
       * pose proof (del_conn_length_lt _ _ C). rewrite E in *. lia.
       * rewrite E. apply has_conn_del_sub.
-    + exists t. cbn. rewrite E. apply Nat.leb_gt in L. repeat split; auto.
+    + exists t. cbn. rewrite E. apply Nat.leb_gt in L. split; [reflexivity|]. split; [assumption|].
+      split; [exact L|]. split; auto.
 Qed.
 
 (* ---- Connect *)
@@ -208,7 +210,7 @@ Lemma expire_all_pending : forall L rs r,
   In r rs /\ forall r0, In r0 L -> ~ (r_piece r = r_piece r0 /\ r_peer r = r_peer r0).
 Proof.
   induction L as [|r1 L IH]; intros rs r H Hp; cbn in H.
-  - split; auto. intros ? [].
+  - split; [auto|intros ? []].
   - destruct (IH _ _ H Hp) as [H1 H2]. destruct (expire_pending _ _ _ _ H1 Hp) as [H3 H4].
     split; auto. intros r0 [<-|H0]; auto.
 Qed.
@@ -232,13 +234,125 @@ Lemma expire_stage : forall L t,
     /\ (forall y, y <> a -> peers P t' y = peers P t y) /\ msgs P t' = msgs P t.
 Proof.
   induction L as [|r L IH]; intros t HP.
-  - exists t. cbn. repeat split; auto.
+  - exists t. cbn. split; [reflexivity|]. split; [assumption|]. split; [reflexivity|]. split; [reflexivity|]. split; auto.
   - destruct (expire_step t (r_peer r) (r_piece r) (ph_upa _ HP)) as (t1 & Hs & Hr & Hc & Ho & Hm).
     assert (HP1 : Ph t1) by (eapply Ph_bk; eauto; reflexivity).
     destruct (IH t1 HP1) as (t' & Hs' & HP' & Hr' & Hc' & Ho' & Hm').
     exists t'. cbn [map C19.run_strict]. rewrite Hs. split; [exact Hs'|]. split; [auto|].
     split; [rewrite Hr', Hr; reflexivity|]. split; [congruence|]. split; [|congruence].
     intros y Hy. rewrite Ho', Ho; auto.
+Qed.
+
+(* ---- the four labels that move the piece *)
+Lemma npending_none : forall rs p, (forall r, In r rs -> is_pending r = false) -> npending rs p = 0.
+Proof.
+  intros rs p H. unfold npending. induction rs as [|r t IH]; cbn; auto.
+  rewrite (H r (or_introl eq_refl)), andb_false_r. apply IH. intros; apply H; now right.
+Qed.
+
+Lemma valid_none : forall rs p j d, (forall r, In r rs -> is_pending r = false) -> valid rs p j d = true.
+Proof.
+  intros rs p j d H. unfold valid. apply forallb_forall. intros r Hr. now rewrite (H r Hr), andb_false_r.
+Qed.
+
+Lemma find_conn_has : forall cs p c, find_conn cs p = Some c -> has_conn cs p = true.
+Proof.
+  intros cs p c H. unfold find_conn in H. apply find_some in H as [H1 H2].
+  unfold has_conn. apply existsb_exists. eauto.
+Qed.
+
+Lemma find_conn_snoc : forall cs p c, has_conn cs p = false -> c_peer c = p -> find_conn (cs ++ [c]) p = Some c.
+Proof.
+  intros cs p c H E. unfold find_conn, has_conn in *. induction cs as [|x t IH]; cbn in *.
+  - now rewrite E, Nat.eqb_refl.
+  - apply orb_false_iff in H as [H1 H2]. rewrite H1. auto.
+Qed.
+
+Lemma is_req_between : forall x y j m, is_req P x y j m = true -> between P x y m = true.
+Proof.
+  intros x y j m H. destruct m; cbn in *; try discriminate.
+  apply andb_true_iff in H as [H _]. unfold between. cbn. now rewrite H.
+Qed.
+
+Lemma is_pay_between : forall x y j m, is_pay P y x j m = true -> between P x y m = true.
+Proof.
+  intros x y j m H. destruct m; cbn in *; try discriminate.
+  apply andb_true_iff in H as [H _]. unfold between. cbn. rewrite H. apply orb_true_r.
+Qed.
+
+Lemma do_request_single : forall t x p j cn,
+  p_up P (peers P t x) = true -> honest P (peers P t x) = true ->
+  find_conn (p_conns P (peers P t x)) p = Some cn ->
+  (forall r, In r (p_reqs P (peers P t x)) -> is_pending r = false) ->
+  j < n -> c_view cn j = true -> is_complete (p_st P (peers P t x) j) = false ->
+  do_request P g t x p [j] 1 =
+    Some (mkstate P (upd (peers P t) x (set_reqs P (peers P t x) (p_reqs P (peers P t x) ++ [mkreq j p RPending])))
+                    (msgs P t ++ [MReq x p j])).
+Proof.
+  intros t x p j cn U H C Np Hj V Nc. unfold do_request. rewrite U, H, C. cbn [negb andb].
+  rewrite (npending_none _ p Np), Nat.sub_0_r.
+  assert (L : 1 <= limit P g (c_origin cn)).
+  { destruct Hlim as (L1 & L2 & _). unfold limit. destruct (c_origin cn); auto. }
+  assert (E1 : Nat.ltb 0 (limit P g (c_origin cn)) = true) by (apply Nat.ltb_lt; lia).
+  assert (E2 : Nat.leb (length [j]) (limit P g (c_origin cn)) = true) by (apply Nat.leb_le; cbn; lia).
+  rewrite E1, E2. cbn [length Nat.leb andb nodupb memb existsb negb forallb].
+  apply Nat.ltb_lt in Hj. rewrite Hj, V, Nc, (valid_none _ p j _ Np). cbn. reflexivity.
+Qed.
+
+Lemma final_steps : forall t cn,
+  i < n -> Ph t ->
+  find_conn (p_conns P (peers P t a)) sd = Some cn -> c_view cn i = true ->
+  has_conn (p_conns P (peers P t sd)) a = true ->
+  (forall m, In m (msgs P t) -> between P a sd m = false) ->
+  (forall r, In r (p_reqs P (peers P t a)) -> is_pending r = false) ->
+  exists t', run_strict t [Request a sd [i] 1; Serve sd a i; RecvBegin a sd i; RecvEnd a i] = Some t'
+    /\ verified P t' a i = true.
+Proof.
+  intros t cn Hi HP Hcn Hv Hsa Hnm Hnp.
+  pose proof (Ph_neq _ Hi HP) as Hne.
+  destruct HP as [HI Ua Ha Us Hs Full Emp].
+  assert (Nc : is_complete (p_st P (peers P t a) i) = false) by now rewrite Emp.
+  destruct HI as [HPI HMI].
+  (* the seeder's bytes of piece i *)
+  pose proof (Full i Hi) as Fi.
+  destruct (pi_data _ _ _ _ _ (HPI sd) i Fi) as [_ Hd].
+  destruct (nth_error blob i) as [b|] eqn:Eb; [|apply nth_error_None in Eb; unfold npieces in Hi; lia].
+  cbn [C19.run_strict C19.step].
+  (* Request *)
+  rewrite (do_request_single t a sd i cn Ua Ha Hcn Hnp Hi Hv Nc).
+  set (xa := set_reqs P (peers P t a) (p_reqs P (peers P t a) ++ [mkreq i sd RPending])).
+  (* Serve *)
+  cbn [peers msgs].
+  assert (Hsd1 : upd (peers P t) a xa sd = peers P t sd) by (apply upd_other; auto).
+  rewrite Hsd1, Us, Hs, Hsa. cbn [andb].
+  rewrite (take_first_snoc _ (is_req P a sd i) (msgs P t) (MReq a sd i)).
+  2:{ intros m Hm. destruct (is_req P a sd i m) eqn:E; auto. apply is_req_between in E. rewrite (Hnm m Hm) in E. discriminate. }
+  2:{ cbn. now rewrite !Nat.eqb_refl. }
+  apply Nat.ltb_lt in Hi. rewrite Hi, Fi, Hd. cbn [andb peers msgs].
+  (* RecvBegin *)
+  set (ysd := set_conns P (peers P t sd) (view_set (p_conns P (peers P t sd)) a i)).
+  assert (Ha2 : upd (upd (peers P t) a xa) sd ysd a = xa).
+  { rewrite upd_other by auto. apply upd_same. }
+  rewrite Ha2. unfold xa at 1 2 3. cbn [p_up honest p_kind set_reqs p_conns].
+  fold (honest P (peers P t a)). rewrite Ua, Ha, (find_conn_has _ _ _ Hcn). cbn [andb].
+  rewrite (take_first_snoc _ (is_pay P sd a i) (msgs P t) (MPay sd a i b)).
+  2:{ intros m Hm. destruct (is_pay P sd a i m) eqn:E; auto. apply is_pay_between in E. rewrite (Hnm m Hm) in E. discriminate. }
+  2:{ cbn. now rewrite !Nat.eqb_refl. }
+  assert (Hl : len_ok P plen g i b = true) by (unfold len_ok; rewrite Eb; apply N.eqb_refl).
+  rewrite Hl. unfold xa at 1. cbn [p_st set_reqs]. rewrite Emp.
+  (* RecvEnd *)
+  cbn [peers msgs]. rewrite upd_same. cbn [p_up p_st p_wr]. unfold xa at 1. cbn [p_up set_reqs].
+  rewrite Ua, upd_same. cbn [is_dirty andb].
+  unfold xa at 1. cbn [p_wr set_reqs].
+  rewrite (take_first_snoc _ (fun w => Nat.eqb (w_piece P w) i) (p_wr P (peers P t a)) (mkwrt P i sd b)).
+  2:{ intros w Hw. destruct (Nat.eqb (w_piece P w) i) eqn:E; auto. apply Nat.eqb_eq in E.
+      pose proof (pi_dirty _ _ _ _ _ (HPI a) w Hw) as Dw. rewrite E, Emp in Dw. discriminate. }
+  2:{ cbn. apply Nat.eqb_refl. }
+  cbn [w_data].
+  assert (Hs2 : sum_ok P sum g i b = true).
+  { unfold sum_ok. rewrite Hsums, nth_error_map, Eb. cbn. apply N.eqb_refl. }
+  rewrite Hs2. eexists. split; [reflexivity|]. unfold verified. cbn [peers]. rewrite upd_same. cbn [p_st].
+  now rewrite upd_same.
 Qed.
 
 End Prog.
